@@ -3,9 +3,11 @@ package mc
 import (
 	"fmt"
 	"hash/fnv"
+	"os"
 	"runtime"
 	"runtime/debug"
 	"sort"
+	"strconv"
 	"strings"
 	"sync/atomic"
 	"time"
@@ -188,6 +190,13 @@ const maxViolationsPerScenario = 5
 // Explore runs the breadth-first search to sc.Depth or until the deadline.
 func Explore[W any](sc *Scenario[W], deadline time.Time) *Result {
 	start := time.Now()
+	if d, err := strconv.Atoi(os.Getenv("VERIF_DEPTH_DELTA")); err == nil && d != 0 {
+		// development aid (mutation campaigns run a shallower first pass); the
+		// registered commands never set it and the evidence records the depth used
+		c := *sc
+		c.Depth = max(1, sc.Depth+d)
+		sc = &c
+	}
 	res := &Result{Scenario: sc.Name, Property: sc.Property, DepthTarget: sc.Depth,
 		Alphabet: len(sc.Ops), Seeds: len(sc.Seeds), Events: map[string]int64{}}
 	maxStates := sc.MaxStates
